@@ -1657,7 +1657,10 @@ class Pool:
             iterable = list(iterable)
 
         if chunksize is None:
-            chunksize, extra = divmod(len(iterable), len(self._pool) * 4)
+            # the list is empty for a moment while the only worker (or every
+            # worker) is being replaced
+            chunksize, extra = divmod(len(iterable),
+                                      max(len(self._pool), 1) * 4)
             if extra:
                 chunksize += 1
         if len(iterable) == 0:
